@@ -275,7 +275,7 @@ macro_rules! matrix_impl {
             $($asyncness)? fn names(&self, type_: i32, foo_bar: Uuid, async_: i32, camel_case: Option<i32>, self_: i32, snake_arg: Vec<i32>,
                 match_: Option<bool>) -> Result<String, Error> {
                 self.record("names", vec![("type", j(&type_)), ("fooBar", j(&foo_bar)), ("async", j(&async_)), ("camelCase", j(&camel_case)),
-                    ("self", j(&self_)), ("snake_arg", j(&snake_arg)), ("match", j(&match_))]);
+                    ("self", j(&self_)), ("snakeArg", j(&snake_arg)), ("match", j(&match_))]);
                 self.ret()
             }
             $($asyncness)? fn opt_query(&self, first: Option<String>, lst: Vec<i32>, st: BTreeSet<String>, last: Option<i32>) -> Result<String, Error> {
@@ -697,7 +697,7 @@ macro_rules! gen_calls {
                         &arg::<String>(args, "unsafeHeader")?, dnl.as_deref(), arg(args, "safeInt")?, &arg::<a::Inner>(args, "body")?)).map(|v| j(&v))
                 }
                 "names" => $w!(c.names(arg(args, "type")?, arg(args, "fooBar")?, arg(args, "async")?, arg(args, "camelCase")?, arg(args, "self")?,
-                    &arg::<Vec<i32>>(args, "snake_arg")?, arg(args, "match")?)).map(|v| j(&v)),
+                    &arg::<Vec<i32>>(args, "snakeArg")?, arg(args, "match")?)).map(|v| j(&v)),
                 "optQuery" => {
                     let first: Option<String> = arg(args, "first")?;
                     $w!(c.opt_query(first.as_deref(), &arg::<Vec<i32>>(args, "lst")?, &arg::<BTreeSet<String>>(args, "st")?, arg(args, "last")?)).map(|v| j(&v))
